@@ -18,7 +18,9 @@
        as the root frame ends with result `empty`, no frame and exactly the program's value (C02_structured_program_runs).
        The statement `if c exitWith {..}` is covered too (VM/SimExit.v, C02_vm_runs_blocks_with_exit): a scope left
        that way ends with the handler's value, nothing after it runs, everything the scope still held is dropped.
-       NOT covered by the simulation: loops (while / for / forEach / count / select / apply / findIf), switch,
+       forEach is covered as well (C02_vm_runs_foreach, C02_ref_runs_foreach): one scope per element, the loop frame
+       reused and reset by the pass that goes round, exitWith in the body ending the whole loop.
+       NOT covered by the simulation: the other loops (while / for / count / select / apply / findIf), switch,
        exitWith inside an operand, breakOut, try / catch / throw, waitUntil, nil operands - for these the
        per-construct theorems below and the program-level differential are the evidence;
      - the compiler emits the post-order of the source (code blocks, binary operators, arrays);
@@ -312,14 +314,14 @@ Qed.
    completes the abandoned scope with the handler's value and drops whatever the scope still held. *)
 Theorem C02_ref_runs_blocks_with_exit : forall s reg b out s', zblock s reg b out s' ->
   exists f0, forall f, f0 <= f -> eval_block f s b reg = (oc out, s').
-Proof. exact (proj2 (proj2 (proj2 ref_runs_z))). Qed.
+Proof. exact (proj1 (proj2 (proj2 (proj2 ref_runs_z)))). Qed.
 Print Assumptions C02_ref_runs_blocks_with_exit.
 Theorem C02_vm_runs_blocks_with_exit : forall s reg b out s', zblock s reg b out s' ->
   forall r c f fc rest below pre, AtM s reg r c f (fc :: rest) below ->
     f_code f = pre ++ compile_block b -> f_pos f = length pre -> f_exit f = None -> f_base fc <= length below ->
     exists r' c' fc' rest', Steps r r' /\ Mach (pop_scope s') r' c' fc' rest' /\
       c_values c' = cv (val_of out) :: below /\ kept fc fc' /\ Forall2 kept rest rest'.
-Proof. exact (proj2 (proj2 (proj2 vm_runs_z))). Qed.
+Proof. intros s reg b out s' H. exact (scope_ends_of_body _ _ _ _ _ (proj1 (proj2 (proj2 (proj2 vm_runs_z))) s reg b out s' H)). Qed.
 Print Assumptions C02_vm_runs_blocks_with_exit.
 Theorem C02_vm_runs_expressions_with_exit : forall s e v s', zev s e v s' ->
   forall r c f rest pre post, Mach s r c f rest ->
@@ -343,5 +345,47 @@ Proof.
     - eapply ZIf; [reflexivity|intros ? ?; discriminate|]. eapply ZPure. eapply PBin; [eapply PVarG; reflexivity|eapply PNum|reflexivity].
     - eapply ZCode.
     - eapply ZBLast. eapply ZSExprV. eapply ZPure. eapply PBin; [eapply PVarG; reflexivity|eapply PNum|reflexivity]. }
+  split; reflexivity.
+Qed.
+
+(* ---- forEach (same file): one scope per element holding _forEachIndex and _x; the loop frame is reused, its variables and
+   region are reset by the pass that goes round (which also executes the first instruction of the next round); exitWith in
+   the body ends the whole loop.  ziter s arr i body acc acc' s' = the rounds for the elements arr from index i on. *)
+Theorem C02_ref_runs_foreach : forall s arr i body acc acc' s', ziter s arr i body acc acc' s' ->
+  exists f0, forall f, f0 <= f -> forall k, length arr < k ->
+    iterate_f f k s arr i body true acc step_foreach = (ONormal acc', s').
+Proof. exact (proj2 (proj2 (proj2 (proj2 ref_runs_z)))). Qed.
+Print Assumptions C02_ref_runs_foreach.
+Theorem C02_vm_runs_foreach : forall s x rest0 i body acc acc' s', ziter s (x :: rest0) i body acc acc' s' ->
+  forall r c f fc frest below allarr,
+    AtM (enter s [("_foreachindex", RNum (Z.of_nat i)); ("_x", x)]) (match i with O => RNil | _ => RNone end) r c f (fc :: frest) below ->
+    f_code f = compile_block body -> f_pos f = 0 -> f_exit f = Some (BForEach (map cv allarr) i) -> f_die f = false ->
+    skipn i allarr = x :: rest0 -> leaf_first body -> f_ns f = f_ns fc -> f_base fc <= length below ->
+    exists r' c' fc' rest', Steps r r' /\ r' <> r /\ Mach s' r' c' fc' rest' /\ c_values c' = cv acc' :: below /\
+      kept fc fc' /\ Forall2 kept frest rest'.
+Proof. intros s x rest0 i body acc acc' s' H. exact (proj2 (proj2 (proj2 (proj2 vm_runs_z))) s (x :: rest0) i body acc acc' s' H). Qed.
+Print Assumptions C02_vm_runs_foreach.
+(* a derivation: s = 0; { s = s + _x; if (_x > 1) exitWith { s } } forEach [1, 2, 3]  - two rounds, the second leaves the loop with 3 *)
+Definition ex_foreach : expr :=
+  EBinary "forEach" (ECode [SAssign "s" (EBinary "+" (EVar "s") (EVar "_x"));
+                            SExpr (EBinary "exitWith" (EUnary "if" (EBinary ">" (EVar "_x") (ENum 1))) (ECode [SExpr (EVar "s")]))])
+                    (EArr [ENum 1; ENum 2; ENum 3]).
+Example foreach_inhabited : exists s0 v s', glob_of s0 "s" = Some (RNum 0) /\ zev s0 ex_foreach v s' /\ v = RNum 3 /\ glob_of s' "s" = Some (RNum 3).
+Proof.
+  exists (rns_set init_state default_ns "s" (RNum 0)). eexists _, _. split; [reflexivity|]. split.
+  { eapply ZForEach; [reflexivity| |eapply ZCode| |].
+    - eexists _, _. split; [reflexivity|]. right. eexists. reflexivity.
+    - eapply ZPure. eapply PArr. eapply PCons; [eapply PNum|]. eapply PCons; [eapply PNum|]. eapply PCons; [eapply PNum|eapply PNil].
+    - eapply ZIterCons.
+      + eapply ZBCons.
+        * eapply ZSAssign; [discriminate|eapply ZPure; eapply PBin; [eapply PVarG; reflexivity|eapply PVarL; reflexivity|reflexivity]|split; discriminate].
+        * eapply ZBLast. eapply ZSExprV. eapply ZExitSkip; [reflexivity| |eapply ZCode].
+          eapply ZIf; [reflexivity|intros ? ?; discriminate|]. eapply ZPure. eapply PBin; [eapply PVarL; reflexivity|eapply PNum|reflexivity].
+      + eapply ZIterExit.
+        eapply ZBCons.
+        * eapply ZSAssign; [discriminate|eapply ZPure; eapply PBin; [eapply PVarG; reflexivity|eapply PVarL; reflexivity|reflexivity]|split; discriminate].
+        * eapply ZBExit; [reflexivity| |eapply ZCode|].
+          -- eapply ZIf; [reflexivity|intros ? ?; discriminate|]. eapply ZPure. eapply PBin; [eapply PVarL; reflexivity|eapply PNum|reflexivity].
+          -- eapply ZBLast. eapply ZSExprV. eapply ZPure. eapply PVarG; reflexivity. }
   split; reflexivity.
 Qed.
